@@ -41,6 +41,11 @@ CHECKS.update({
  "C05": dict(cat="model_checking", text="Spectral.tla defines the spectrum of the zero-extended +-1 sequence exactly (60-digit cos/sin) and counts N1 over the first n/2-1 bins with an explicit undecided band of relative 1e-9 around the threshold; every bit sequence of 2..10 (12) bits and generator sequences up to 257 (512) bits (n just above a power of two, periodic, constant) are replayed against it; periodic words lifted to 2^10..2^20 bits by a TLC-checked lifting lemma; seeded inputs up to 10^6 bits through an independent FFT proxy judged by TLC.", ref="4 C05", note=STAT_NOTE + "; n > 512 relies on an independent float64 FFT in the driver, cross-checked on every small vector", tech=STAT_TECH),
  "C19": dict(cat="model_checking", text="The radix-2 FFT of fft.go is transcribed loop by loop over the cyclotomic integers and model-checked equal to the DFT definition on the impulse basis for N=2..64 (128) (complete by linearity; wrong twiddle indices are negative controls), Inverse inverts, lastPow2/ceilPow2 against their definitions for all N<=5000 and around every 2^k<=2^27. The real package is bound by exact spectra of integer inputs (N<=64), TLC-judged sampled bins of impulse/tone families up to 2^14 (2^20), inverse round trips, constructor limits and the wrong-length refusal.", ref="4 C19", note="transforms above 2^20 points are not executed; tolerance 1e-9*||x||; trusts RealFn cos/sin", tech="TLA+ exact-arithmetic model of the FFT (Spectral/GenSpectral) model-checked by TLC; TLC-generated spectra replayed into Go; recorded transforms validated by TLC (TraceSpectral)"),
 })
+CHECKS.update({
+ "C06": dict(cat="exploration", text="The specification owns an independent definition of Q(a,x) for integer and half-integer shapes (closed finite form, 60 digits). TLC generates per-shape argument chains (switch-over lines x=1 and x=a to one ulp, bulk a+t sqrt a, both far tails) and judges the recorded outputs of the real Igamc for accuracy 1e-12+1e-14a, range, exact 1 at x<=0 and monotonicity; per-region coverage is measured. Dense grid exploration, not a proof of a bound: this is the property the technique fits worst.", ref="4 C06", note="trusted: RealFn closed form of Q(a,x) (axioms + mpmath); grid over 2a in 1..10000 (stride in quick, all in thorough) x 127 arguments", tech="TLA+ trace specification (TraceIgamc) with a Java real-number override; TLC-generated argument grid (GenIgamc) replayed into Go; recorded values validated by TLC"),
+ "C11": dict(cat="model_checking", text="Single.tla: the m-selection and error rule is model-checked for every length 0..4200; TLC generates byte contents whose poker P is dialled across 0.01 and structured contents that one pattern length sees and another does not, with the expected verdict from the poker definition; a sweep over every length 0..4096 (stride in quick) with seeded contents is judged by TLC from pattern histograms; junk behind the requested bytes must never be requested.", ref="4 C11", note="contents with |P-0.01|<1e-9 accepted either way; trusts RealFn", tech="TLA+ spec (Single/GenSingle) model-checked by TLC; TLC-generated contents replayed into SingleDetect; length sweep validated by TLC (TraceSingle)"),
+ "C14": dict(cat="model_checking", text="StuckAt.tla checks the composition argument on the model (<=64 distinct byte values per sample force poker m=8 below 0.01 for every period 1..64 and both sample sizes; a never-passing item forces a false verdict naming it). The real workflows are run end to end with the real runners on constant and periodic streams (all six workflow functions; the (00)^63 01 stream reaches the block on which the pinned commit crashed) and SingleDetect on 0x00../0xFF.. at every length; TLC validates rejection, error, termination.", ref="4 C14", note="periodic contents are sampled against the code; sequential Factory/PowerOn runs only in thorough", tech="TLA+ composition lemma (StuckAt) checked by TLC; degenerate streams replayed into the real workflows; traces validated by TLC (TraceWorkflow/TraceSingle)"),
+})
 PENDING = {}
 
 def main():
